@@ -1,6 +1,6 @@
 #!/usr/bin/env python3
-"""refactor_matrix.py <dir-with-r*.diff> [...] — applies each behaviour-preserving refactoring to /repo in turn, runs all 20 quick checks
-(evidence diverted), reverts.  Any exit 1 is a FALSE ALARM of that check; exit 2 means an anchor the analysis needs was restructured."""
+"""refactor_matrix.py <dir-with-r*.diff> [...] — applies each behaviour-preserving refactoring in turn to a scratch copy of /repo's
+working tree (tools/scratch_repo.sh; /repo itself is never modified), runs all 20 quick checks against the copy (VERIF_REPO; evidence diverted), resets the copy.  Any exit 1 is a FALSE ALARM of that check; exit 2 means an anchor the analysis needs was restructured."""
 import glob, json, os, re, subprocess, sys
 from concurrent.futures import ThreadPoolExecutor
 V = "/verif"
@@ -12,28 +12,29 @@ def sh(cmd, **kw):
 
 
 def run_check(p):
-    env = dict(os.environ, VERIF_EVIDENCE_DIR=os.path.join(V, "out", "refactorruns"))
+    env = dict(os.environ, VERIF_REPO=SCRATCH, VERIF_EVIDENCE_DIR=os.path.join(V, "out", "refactorruns"))
     os.makedirs(env["VERIF_EVIDENCE_DIR"], exist_ok=True)
     r = sh("./check %s --tier quick" % p, cwd=V, env=env)
     lines = [l.strip()[:300] for l in r.stdout.split("\n") if "[R-" in l or "ANALYSIS-BROKEN" in l]
     return p, r.returncode, lines
 
 
-if sh("git -C /repo diff --quiet").returncode != 0:
-    print("/repo has uncommitted changes; refusing"); sys.exit(2)
+SCRATCH = sh(V + "/tools/scratch_repo.sh make").stdout.strip()   # /repo itself is never modified
+import atexit
+atexit.register(lambda: sh(V + "/tools/scratch_repo.sh drop " + SCRATCH))
 out = {}
 for d in sys.argv[1:]:
     for pf in sorted(glob.glob(os.path.join(os.path.abspath(d), "r*.diff"))):
         if os.path.getsize(pf) == 0:
             continue
-        a = sh("git -C /repo apply %s" % pf)
+        a = sh("patch -p1 -s --no-backup-if-mismatch < %s" % pf, cwd=SCRATCH)
         if a.returncode != 0:
-            print("%-40s does not apply" % pf); continue
+            print("%-40s does not apply" % pf); sh(V + "/tools/scratch_repo.sh reset " + SCRATCH); continue
         try:
             with ThreadPoolExecutor(max_workers=8) as ex:
                 res = list(ex.map(run_check, PROPS))
         finally:
-            sh("git -C /repo checkout -- .")
+            sh(V + "/tools/scratch_repo.sh reset " + SCRATCH)
         fa = [(p, l) for p, rc, l in res if rc == 1]
         br = [(p, l) for p, rc, l in res if rc == 2]
         out[pf] = {"false_alarm": fa, "analysis_broken": br}
